@@ -320,10 +320,17 @@ def vm_crosscheck(name, requests, answers, sample=150, seed=0, entry=None):
 def load_findings(prop):
     p = os.path.join(VERIF, "known_findings.json")
     try:
-        data = json.load(open(p))
+        with open(p) as fh:
+            data = json.load(fh)
     except FileNotFoundError:
-        return []
-    return [f for f in data.get("findings", []) if f.get("property") == prop]
+        data = {}
+    out = [f for f in data.get("findings", []) if f.get("property") == prop]
+    # per-property entry files (findings/Cxx.entries.json) are part of the committed list too
+    ep = os.path.join(VERIF, "findings", f"{prop}.entries.json")
+    if os.path.exists(ep):
+        with open(ep) as fh:
+            out += [f for f in json.load(fh) if f.get("property") == prop]
+    return out
 
 
 # ----------------------------------------------------------------------------
@@ -425,11 +432,16 @@ class Ctx:
     def attribute(self, case):
         """Return the id of the open known finding this failing case belongs to, else None.
         A finding matches through a predicate over the *case* (harness/findings.py)."""
+        import importlib
         import findings as F
+        try:
+            FP = importlib.import_module(f"findings_{self.prop}")
+        except ImportError:
+            FP = None
         for fd in self.findings:
             if fd.get("status") != "open":
                 continue
-            pred = getattr(F, fd["trigger"], None)
+            pred = getattr(F, fd["trigger"], None) or (getattr(FP, fd["trigger"], None) if FP else None)
             if pred is None:
                 continue
             try:
